@@ -91,7 +91,8 @@ fn main() {
         "C12" => c12,
         "C16" => c16,
         "C17" => c17,
-        "C18" => c18
+        "C18" => c18,
+        "C19" => c19
     );
     std::process::exit(code);
 }
